@@ -21,6 +21,9 @@ import (
 // the first six can be "own"; the others only ever appear as foreign sources (addresses that END with an own address included)
 var c14Sources = []string{"h:637", "h:6379", "h:63790", "10.0.0.1:6379", "10.0.0.1:63791", "10.0.0.11:6379", "other:1", "xh:637", "110.0.0.1:6379", "my-h:6379"}
 
+// own addresses also include host names with hyphens (the field names are "<address>-runid" etc.)
+var c14Own = append(append([]string{}, c14Sources[:6]...), "redis-master.prod:6379", "a-b:6379")
+
 type ckWrite struct {
 	src      string
 	db       int
@@ -39,7 +42,7 @@ type c14State struct {
 
 func drawC14(t *rapid.T) *c14State {
 	st := &c14State{}
-	st.own = rapid.SampledFrom(c14Sources[:6]).Draw(t, "own")
+	st.own = rapid.SampledFrom(c14Own).Draw(t, "own")
 	st.name = utils.CheckpointKey
 	if rapid.IntRange(0, 3).Draw(t, "suffix") == 0 {
 		st.name = utils.CheckpointKey + "-" + rapid.StringMatching(`[a-z]{4}`).Draw(t, "sfx")
@@ -55,7 +58,11 @@ func drawC14(t *rapid.T) *c14State {
 			w.src = rapid.SampledFrom(c14Sources).Draw(t, "src")
 		}
 		w.db = rapid.IntRange(0, 15).Draw(t, "db")
-		next[w.src] += int64(rapid.IntRange(1, 100000).Draw(t, "step"))
+		if _, started := next[w.src]; !started && rapid.IntRange(0, 3).Draw(t, "fromZero") == 0 {
+			next[w.src] = 0 // a checkpoint at offset 0 is a checkpoint like any other
+		} else {
+			next[w.src] += int64(rapid.IntRange(1, 100000).Draw(t, "step"))
+		}
 		if rapid.IntRange(0, 9).Draw(t, "bigoff") == 0 {
 			next[w.src] += 1 << 33
 		}
